@@ -142,21 +142,17 @@ pub fn run_case(case: &Value) -> Value {
     let log = take_train_log();
     if let Some(b) = &log.boundary {
         out["qbias"] = json!(b.bias);
-        out["q"] = Value::Array(b.weights.iter().map(|(f, w)| { let mut j = feat_json(f); j["q"] = json!(w); j }).collect());
+        out["q"] = Value::Array(b.weights.iter().map(|(f, w)| json!({"f": feat_json(f), "q": w})).collect());
     }
     out["tagq"] = Value::Array(
         log.tags
             .iter()
             .map(|e| {
-                let mut j = match &e.feature {
+                let f = match &e.feature {
                     Some(f) => feat_json(f),
                     None => json!({"k": "bias"}),
                 };
-                j["token"] = str_to_cps(&e.token);
-                j["cat"] = json!(e.category);
-                j["cls"] = json!(e.class);
-                j["q"] = json!(e.value);
-                j
+                json!({"token": str_to_cps(&e.token), "cat": e.category, "cls": e.class, "f": f, "q": e.value})
             })
             .collect(),
     );
